@@ -36,8 +36,9 @@ type Cluster struct {
 	PeerOpts   []PeerOpt
 	// GapFill: the first 1-3 remote fetches of about half the acknowledged entries fail, so
 	// that ancestors reach other replicas after their descendants, in batches of their own
-	GapFill   bool
-	FlakyOpen bool
+	GapFill    bool
+	GapFillMax int // most failures per entry (default 3)
+	FlakyOpen  bool
 	// BurstCancel: in a write burst the kernel may cancel the context of a writer that sits
 	// between two of its write-path steps (the client gave up); such a write may fail, and its
 	// entry may or may not be in the log (Maybe)
@@ -169,7 +170,11 @@ func (c *Cluster) RecordWrite(i int, op *Op, e ipfslog.Entry, seen map[string]bo
 	c.ByHash[r.Hash] = r
 	if c.GapFill && c.K.C.Chance(1, 2) {
 		c.K.W.mu.Lock()
-		c.K.W.FailWant[r.Hash] = c.K.C.Range(1, 3)
+		hi := 3
+		if c.GapFillMax > 0 {
+			hi = c.GapFillMax
+		}
+		c.K.W.FailWant[r.Hash] = c.K.C.Range(1, hi)
 		c.K.W.mu.Unlock()
 	}
 	return r
